@@ -11,6 +11,10 @@ def install(ex):
     ex.summaries["math/bits.Mul64"] = mul64
     ex.summaries["errors.New"] = errors_new
     ex.summaries["(*sync.Once).Do"] = once_do
+    ex.summaries["math/bits.Add32"] = lambda ex_, path, a: addsub_w(ex_, path, a, 32, False)
+    ex.summaries["math/bits.Sub32"] = lambda ex_, path, a: addsub_w(ex_, path, a, 32, True)
+    ex.summaries["(*sync.Pool).Get"] = pool_get
+    ex.summaries["(*sync.Pool).Put"] = pool_put
 
 
 def add64(ex, path, args):
@@ -35,6 +39,68 @@ def mul64(ex, path, args):
         p = x * y
         return (p >> 64, p & M64)
     return ex.dom.mul64(path, x, y)
+
+
+def addsub_w(ex, path, args, w, sub):
+    """bits.Add32 / bits.Sub32: (sum or difference mod 2^w, carry or borrow out)"""
+    x, y, c = args
+    m = (1 << w) - 1
+    if all(type(a) is int for a in args):
+        r = x - y - c if sub else x + y + c
+        return (r & m, (1 if r < 0 else 0) if sub else r >> w)
+    import z3
+    if any(z3.is_bv(a) for a in args):
+        e = [z3.ZeroExt(1, a if z3.is_bv(a) else z3.BitVecVal(a, w)) for a in args]
+        r = e[0] - e[1] - e[2] if sub else e[0] + e[1] + e[2]
+        return (z3.Extract(w - 1, 0, r), z3.ZeroExt(w - 1, z3.Extract(w, w, r)))
+    if hasattr(ex.dom, "divmod"):
+        from .dom_lf import LF
+        f = LF.of(x) - LF.of(y) - LF.of(c) if sub else LF.of(x) + LF.of(y) + LF.of(c)
+        q, r = ex.dom.divmod(path, f, 1 << w)
+        return (ex.dom.out(path, r), ex.dom.out(path, -q if sub else q))
+    raise ExecError("bits.%s%d on abstract values" % ("Sub" if sub else "Add", w))
+
+
+def _poison(c):
+    """every scalar leaf of a cell tree becomes indeterminate (stale data of unknown origin)"""
+    from .exec import INDET
+    if type(c) is list:
+        return [_poison(x) for x in c]
+    return INDET
+
+
+def pool_get(ex, path, args):
+    """sync.Pool.Get by its documented contract: the result is either New() or an item some earlier call Put there, whose
+    contents are unknown - modelled as New() with every cell poisoned (a caller that reads before it writes, or trusts a
+    recycled length, ends in a 'use of indeterminate value' error outcome); Put is a no-op"""
+    p = args[0]
+    t = ex.meta[p.obj].type
+    tt = t
+    for i in p.path:
+        tt = tt.field_type(i) if getattr(tt.u, "k", None) == "struct" else tt
+    names = [f["name"] for f in tt.u.fields]
+    newf = ex.load(path, Ptr(p.obj, p.path + (names.index("New"),)))
+    path.log.append(("pool_get", p.obj, p.path))
+    if newf is None:
+        return None
+    if not isinstance(newf, Closure):
+        raise ExecError("Pool.New is not a function value")
+
+    def then(path, caller, vals):
+        v = vals[0]
+        tgt = v.val if isinstance(v, Iface) else v
+        if isinstance(tgt, Ptr):
+            cells, idx = ex._walk(path, tgt)
+            cells[idx] = _poison(cells[idx])
+        ins = caller.fn["blocks"][caller.block]["instrs"][caller.ip]
+        caller.env[ins["name"]] = v
+    ex.push(path, newf.fn, [], newf.bindings, then, None)
+    return _Pushed
+
+
+def pool_put(ex, path, args):
+    path.log.append(("pool_put", args[0].obj, args[0].path))
+    return None
 
 
 def errors_new(ex, path, args):
